@@ -105,6 +105,24 @@ def run(ctx):
                               "a reference is substituted with plain str.replace, bypassing the n/a-aware splicer: a missing "
                               "cell leaves its comma / parentheses behind (`, Blue`, `(Label/33, )`)")
 
+    # a cell text is compared as a whole: `x in "<text>"` is a substring test
+    n_in = 0
+    for f in prog.functions.values():
+        if not f.module.name.startswith("hed.models."):
+            continue
+        for x in walk_no_nested(f.node):
+            if isinstance(x, ast.Compare) and len(x.ops) == 1 and isinstance(x.ops[0], (ast.In, ast.NotIn)):
+                n_in += 1
+                r = x.comparators[0]
+                val = r.value if isinstance(r, ast.Constant) else (
+                    prog.try_const(r, f.module, f.cls, f, default=None) if isinstance(r, (ast.Name, ast.Attribute)) else None)
+                if isinstance(val, str) and len(val) > 1:
+                    ctx.violation("R6.2", f.qualname, x, loc(f, x),
+                                  "`%s` tests membership in the *string* %r, i.e. whether the cell text occurs inside it (a one-element "
+                                  "tuple needs a trailing comma): cells `n`, `a`, `/`, `n/` are treated as missing as well"
+                                  % (norm(x)[:50], val))
+    ctx.ok("R6.2", "%d membership tests in hed.models: none against a multi-character string constant" % n_in, "")
+
     # ---------------- R6.2
     ctx.saw(cdf)
     comb = set()
